@@ -589,16 +589,25 @@ func checkLoca(enc *glyf.Encoded, n int) []string {
 // point counts of simple glyphs at the 8/15/16-bit thresholds (endPtsOfContours is a uint16 array: the
 // largest legal glyph has 65536 points, last end point 0xFFFF)
 func c11PointCounts(r *run.Run) {
-	counts := []int{1, 2, 255, 256, 257, 32767, 32768, 32769, 65535, 65536}
+	counts := []int{1, 2, 254, 255, 256, 257, 258, 511, 512, 513, 32767, 32768, 32769, 65535, 65536}
 	r.Explore(explore.Config{Name: "C11.point-counts"},
-		"simple glyphs with 1, 2, 255..257, 32767..32769, 65535 and 65536 points (last end point 0xFFFF) x {one contour, two contours, split after the first point} x {long, short, repeat-packed flags}: glyf.Decode accepts the assembled glyph, SimpleGlyph.Decode returns exactly the assembled points, Encode/Decode is the identity",
+		"simple glyphs with 1, 2, 254..258, 511..513, 32767..32769, 65535 and 65536 points (last end point 0xFFFF) x {one contour, two contours, split after the first point} x {long, short, repeat-packed flags} x {varied steps, uniform steps (one flag byte for all points: repeat counts up to 255)}: glyf.Decode accepts the assembled glyph, SimpleGlyph.Decode returns exactly the assembled points, Encode/Decode is the identity",
 		func(c *explore.Ctx) {
 			n := counts[c.Choose(len(counts), "points")]
 			split := c.Choose(3, "contours")
 			style := c.Choose(3, "flag encoding")
+			uniform := c.Bool("uniform steps")
 			pts := make([]refPoint, n)
 			for i := range pts {
 				pts[i] = refPoint{X: int16(i % 7 * 40), Y: int16(i % 3 * 300), On: i%5 != 1}
+				if uniform {
+					// every point one unit to the right of the previous one: all flag bytes are equal, so the
+					// repeat-packed form has runs with the largest repeat count (255)
+					pts[i] = refPoint{X: int16(i%30000 - 15000), Y: 7, On: true}
+					if i > 0 && i%30000 == 0 {
+						pts[i].Y = 8 // (the x coordinate starts again: a step that needs a long delta)
+					}
+				}
 			}
 			var contours [][]refPoint
 			switch {
@@ -609,7 +618,7 @@ func c11PointCounts(r *run.Run) {
 			default:
 				contours = [][]refPoint{pts[:1], pts[1:]}
 			}
-			desc := fmt.Sprintf("%d points in %d contours, flag style %d", n, len(contours), style)
+			desc := fmt.Sprintf("%d points in %d contours, flag style %d, uniform steps %v", n, len(contours), style, uniform)
 			c.Sample(func() any { return desc })
 			c.Nontrivial()
 			body := assembleSimple(contours, nil, style, 0)
@@ -626,7 +635,7 @@ func c11PointCounts(r *run.Run) {
 				c.Fail("C11.decode", "point counts", "well-formed glyph rejected: %v (%s)", err, desc)
 				return
 			}
-			c.Outcome(n, split, style)
+			c.Outcome(n, split, style, uniform)
 			sg, ok := gg[0].Data.(glyf.SimpleGlyph)
 			if !ok {
 				c.Fail("C11.decode", "kind", "simple glyph decoded as %T (%s)", gg[0].Data, desc)
